@@ -18,7 +18,7 @@ RULE = ("a history is a sequence of events (press/release shift, click(button, x
         "two picks; distinct by (variant, event sequence)")
 ASSUMPTIONS = [
     "tkinter widgets are replaced by inert stand-ins; everything else (figure, callback registry, handlers, stab_plot/CMIF_plot, extraction) is the real code",
-    "clicks whose nearest model order holds no retained pole are outside the statement and are not generated",
+    "a pick at a model order that holds no retained pole cannot select anything: the handler may raise (a live session swallows it) but the selection must be left unchanged",
     "click coordinates keep away from exact ties (nearest order, nearest pole); ties between identical selected entries accept either",
     "x_data_pole / y_data_pole (scratch written before read inside one handler) are excluded from the canonical state; the un-merged congruence pass checks that exclusion",
 ]
@@ -31,6 +31,7 @@ PHI[~np.isnan(FN)] /= PHI[~np.isnan(FN)][:, [1]]
 LAB = np.where(np.isnan(FN), 0, 1)
 XS = [2.1, 5.02, 9.04, 9.3]
 YS = [0.6, 1.2, 1.8, 2.9]
+Y_EMPTY = 0.2   # nearest model order 0 holds no retained pole
 FS = 20.0
 # FDD variant: 33 lines on [0, 10] Hz, two channels
 NF = 33
@@ -56,8 +57,10 @@ def events_for(variant, thorough):
     ev = [("press",), ("release",)]
     if thorough:
         ev += [("click", b, x, y) for b in (1, 3, 2) for x in XS for y in YS]
+        ev += [("click", 1, x, Y_EMPTY) for x in (XS[1], XS[3])]
     else:
         ev += [("click", 1, x, y) for x in XS for y in YS]
+        ev += [("click", 1, XS[1], Y_EMPTY)]
         ev += [("click", 3, XS[1], YS[1]), ("click", 3, XS[3], YS[0])]
         ev += [("click", 2, x, YS[1]) for x in XS]
     if variant == "FDD":
@@ -184,10 +187,12 @@ class Model:
         self.variant = variant
         self.shift = False
         self.sel = []
+        self.empty_pick = False
 
     def step(self, ev):
         """Returns the list of admissible next selections (sorted tuples), or None if outside the statement."""
         cur = tuple(sorted(self.sel))
+        self.empty_pick = False
         if ev[0] == "press":
             self.shift = True
             return [cur]
@@ -205,7 +210,8 @@ class Model:
                 o = int(np.argmin(np.abs(np.arange(FN.shape[1]) - y)))
                 col = FN[:, o]
                 if np.all(np.isnan(col)):
-                    return None
+                    self.empty_pick = True
+                    return [cur]
                 r = int(np.nanargmin(np.abs(col - x)))
                 new = (float(col[r]), o)
             return [tuple(sorted(self.sel + [new]))]
@@ -278,6 +284,22 @@ def run_history(variant, events, hist, judge_all=False):
             try:
                 fire(o, ev)
             except Exception as e:
+                if m.empty_pick:
+                    # no retained pole at the clicked order: nothing can be selected; a live session swallows the
+                    # exception, so the only requirement is that the selection is left exactly as it was
+                    got = observe(o, variant)
+                    if judge:
+                        t.validated += 1
+                        if got is None or got not in adm:
+                            t.violation(f"selection:{variant}:pick-on-empty-order",
+                                        f"{variant} dialog: a pick at a model order without retained poles left the selection lists as "
+                                        f"sel_freq={list(map(float, o.sel_freq))}, orders={list(o.pole_ind)} (model: unchanged {adm[0]}) after {label(i)}", case)
+                        else:
+                            t.outcomes["pick-on-empty-order"] += 1
+                    if got is None or got not in adm:
+                        out["stop"] = True
+                        return
+                    continue
                 if judge:
                     t.violation(f"handler-raises:{type(e).__name__}:{variant}:button{ev[1] if ev[0] == 'click' else ev[0]}",
                                 f"{variant} dialog: handler raised {type(e).__name__}: {e} on {ev} after {label(i - 1)} (a live session swallows it and the click silently does nothing)", case)
@@ -394,7 +416,7 @@ def explore(ctx):
         for h0, h1, evs in broken:
             ctx.tally.violation(f"hidden-state:{variant}", f"histories {h0} and {h1} reach the same dialog state but differ after events {evs}",
                                 {"variant": variant, "events": [events[i] for i in h1], "other": [events[i] for i in h0]})
-    ctx.require("pick", "deselect-one", "deselect-nearest", "click-without-modifier", "handover-ok", "extracted-ok")
+    ctx.require("pick", "pick-on-empty-order", "deselect-one", "deselect-nearest", "click-without-modifier", "handover-ok", "extracted-ok")
 
 
 def replay(case):
